@@ -1,7 +1,7 @@
 #!/bin/bash
 # usage: try_mutant.sh <worktree> <mutant-dir> [props]
 # Applies <mutant-dir>/patch.diff in the scratch worktree, confirms the repo's own suite stays green and the demo
-# fails with / passes without the change, then runs the static checks against that worktree (-repo) and reverts.
+# fails with / passes without the change (DEMO_GOARCH / DEMO_FLAGS: a demo that needs GOARCH=386 or -race), then runs the static checks against that worktree (-repo) and reverts.
 export GOFLAGS=-mod=mod GOPROXY=off GOSUMDB=off GOTOOLCHAIN=local GOWORK=off
 wt=$1; m=$2; props=${3:-all}
 cd "$wt" || exit 2
@@ -11,9 +11,9 @@ place=$(grep -m1 -o 'place in: *[^ ]*' "$m/demo_test.go" | sed 's/place in: *//'
 cp "$m/demo_test.go" "$place" 2>/dev/null || { echo "DEMO-PLACE-UNKNOWN $m"; }
 pkg=./$(dirname "$place")
 names=$(grep -o "^func Test[A-Za-z0-9_]*" "$m/demo_test.go" | sed "s/func //" | paste -sd"|")
-base=$(go test -vet=off -count=1 -timeout 180s -run "^($names)\$" $pkg 2>&1 | tail -1)
+base=$(GOARCH=${DEMO_GOARCH:-$(go env GOARCH)} go test $DEMO_FLAGS -vet=off -count=1 -timeout 180s -run "^($names)\$" $pkg 2>&1 | tail -1)
 git apply "$m/patch.diff" || { echo "PATCH-FAILED $m"; exit 2; }
-mut=$(go test -vet=off -count=1 -timeout 180s -run "^($names)\$" $pkg 2>&1 | tail -1)
+mut=$(GOARCH=${DEMO_GOARCH:-$(go env GOARCH)} go test $DEMO_FLAGS -vet=off -count=1 -timeout 180s -run "^($names)\$" $pkg 2>&1 | tail -1)
 rm -f "$place"
 suite=$(go build ./... 2>&1 && go test -vet=off -count=1 ./... 2>&1 | grep -v '^ok' | head -3)
 fired=$(/verif/bin/utilcheck -repo "$wt" -prop $props -no-evidence 2>&1 | grep -a '^VIOLATION' | sed 's/VIOLATION property=\([A-Z0-9]*\).*/\1/' | sort -u | tr '\n' ' ')
